@@ -93,7 +93,7 @@ PROPS = {
                  "encoder produces the same bytes and the model reads them back to the same coordinates; (2) elements unequal in the "
                  "model have unequal encodings (P/-P, +G, vs identity, independent pairs); (3) whatever a decoder accepts is on the curve, "
                  "has the coordinates the model reads (reduced mod p where the code reduces), is in the prime-order subgroup for the "
-                 "types that promise it, and on BLS12-381 has no coordinate >= p and no forbidden flag combination; canonical encodings "
+                 "types that promise it, and on BLS12-381 carries no flag combination the ZCash format forbids; canonical encodings "
                  "of valid elements must be accepted; (4) wrong length, undefined tags/flags, off-curve coordinates must be errors; "
                  "(5) no panic (vlib.NoPanic around every decoder and encoder). Harmless non-canonical acceptances are counted in classes "
                  "of their own. Non-trivial: everything except a round trip of a plain drawn multiple kG; distinct = distinct (group or "
@@ -522,5 +522,24 @@ PROPS["C07"] = {
         "the lists of scenarios admitted to P2 / P4-completion / P5 are measured on the unchanged tree (60 identical-stream runs each, all agreeing) and frozen in c07/calibrate_test.go",
     ],
     "quick": {"scale": 1, "shards": 16, "timeout_s": 1200},
+    "thorough": {"scale": 8, "shards": 16, "timeout_s": 7200},
+}
+
+PROPS["C04"] = {
+    "pkg": "c04",
+    "level": "fault_enumeration",
+    "rule": ("fault space = protocol scenario (session, AOR, Gennaro and Canetti over threshold and CNF structures, redistribution refresh / "
+             "to-unanimity / anchored, Lindell22 BIP-340 with 2 and 3 signers, DKLs23 SoftSpoken (BBOT in thorough), Lindell17) x deviator "
+             "x outgoing message slot (round, unicast-to-recipient or broadcast) x leaf path class of the message's CBOR tree (nested "
+             "encodings such as proofs opened recursively) x operator {bitflip, replace by same-field value of another sender / recipient / "
+             "parallel session, swap, zero, int+-1, truncate, extend, replay-other-sender, replay-parallel-session, swap-recipient, drop}; "
+             "the deviator's own state stays honest (wire fault); unicast faults hit one recipient, broadcast faults all recipients "
+             "identically (through echo broadcast). A case is non-trivial iff the operator applied and changed the encoding; distinct = "
+             "(scenario, round, unicast/broadcast, leaf class, operator, deviator position). Oracles: S1 no panic / no hang, S2 every blamed "
+             "identity is the deviator, S3 every output released by honest parties or aggregators passes the output oracle (independent "
+             "signature verification, share-vs-public-key consistency, unchanged public key), D a bound leaf's alteration is rejected by the "
+             "recipient (unicast) or an honest party (broadcast); free leaves are listed explicitly."),
+    "assumptions": COMMON_ASSUME + ["single static deviator; wire-level faults only", "the free-list in harness/c04/freelist_test.go (leaves a sender may choose afresh) is part of the trusted base"],
+    "quick": {"scale": 1, "shards": 16, "timeout_s": 1500},
     "thorough": {"scale": 8, "shards": 16, "timeout_s": 7200},
 }
